@@ -7,7 +7,7 @@ bin=${ACVLINT:-/verif/bin/acvlint}
 checks=${CHECKS:-$(for i in $(seq -w 1 18); do echo C$i; done)}
 wt=/tmp/cm-$name; ev=/tmp/cm-ev-$name
 git -C /repo worktree remove --force $wt >/dev/null 2>&1
-git -C /repo worktree add -q --detach $wt ${BASE:-b66921c} || exit 2
+git -C /repo worktree add -q --detach $wt ${BASE:-HEAD} || exit 2
 mkdir -p $ev; cp /verif/known_findings.txt $ev/ 2>/dev/null
 applies=true
 (cd $wt && git apply "$patch") 2>/dev/null || applies=false
